@@ -352,10 +352,13 @@ def num_arith(op, a, b, wrapping=True):
     elif op == 'Sub': r = x - y
     elif op == 'Mul':
         r = x * y
-    elif op == 'Div' and not signed and not b.concrete and not a.concrete:
-        f = z3.Function(f'udiv{bits}', z3.IntSort(), z3.IntSort(), z3.IntSort())
+    elif op == 'Div' and not b.concrete and not a.concrete:
+        f = z3.Function(f'{"s" if signed else "u"}div{bits}', z3.IntSort(), z3.IntSort(), z3.IntSort())
         r = f(x, y)
-        DIV_AXIOMS.append(z3.And(r >= 0, r <= x, z3.Implies(y == 1, r == x), z3.Implies(y > x, r == 0), z3.Implies(z3.And(y >= 1, y <= x), r >= 1)))
+        if signed:
+            DIV_AXIOMS.append(z3.And(in_range(r, bits, signed), z3.Implies(z3.And(x >= 0, y >= 1), z3.And(r >= 0, r <= x, z3.Implies(y == 1, r == x), z3.Implies(y > x, r == 0)))))
+        else:
+            DIV_AXIOMS.append(z3.And(r >= 0, r <= x, z3.Implies(y == 1, r == x), z3.Implies(y > x, r == 0), z3.Implies(z3.And(y >= 1, y <= x), r >= 1)))
         return Num(r, bits, signed)
     elif op == 'Rem' and not signed and not b.concrete and not a.concrete:
         f = z3.Function(f'urem{bits}', z3.IntSort(), z3.IntSort(), z3.IntSort())
